@@ -1,5 +1,6 @@
 import SV.Common
 import SV.Shard
+import Driver.TxCacheDrv
 open SV
 
 def tokens (line : String) : List String :=
@@ -34,9 +35,20 @@ partial def loopStateless (h : IO.FS.Stream) (out : IO.FS.Stream) (f : List Stri
   out.putStrLn (f toks)
   loopStateless h out f
 
+partial def loopState {σ : Type} (h : IO.FS.Stream) (out : IO.FS.Stream) (f : σ → List String → σ × String) (st : σ) : IO Unit := do
+  let line ← h.getLine
+  if line.isEmpty then return ()
+  let toks := tokens (line.trimAscii.toString)
+  if toks.isEmpty || line.startsWith "#" then loopState h out f st
+  else
+    let (st', o) := f st toks
+    out.putStrLn o
+    loopState h out f st'
+
 def main (args : List String) : IO UInt32 := do
   let stdin ← IO.getStdin
   let stdout ← IO.getStdout
   match args with
+  | ["txcache"] => loopState stdin stdout Drv.TxCache.step {}; return 0
   | ["shard"] => loopStateless stdin stdout shardStep; return 0
   | _ => IO.eprintln "usage: svdriver <component>"; return 2
